@@ -20,11 +20,33 @@ def locate_writer(ck, mod):
     return hits[0]
 
 
+def printed_copy_columns(ck, rule='PROV-renumber'):
+    """The [ atoms ] line prints a copy of the node in which only the two optional columns are filled in: residue number, names, type and charge group
+    are the node's own (the coordinate file prints them from the node as well)."""
+    mod = ck.index.mod(ITP)
+    w = locate_writer(ck, mod)
+    writes = [c for c in walk_local(w) if isinstance(c, ast.Call) and call_attr(c) == 'format' and any(k.arg is None for k in c.keywords) and 'atomname' in u(c.func.value)]
+    ok = len(writes) == 1
+    rewritten = ['?']
+    if ok:
+        copyvar = next(u(k.value) for k in writes[0].keywords if k.arg is None)
+        loop = next((l for l in mod.ancestors(writes[0]) if isinstance(l, ast.For)), None)
+        scope = loop if loop is not None else w
+        rewritten = sorted({str(try_fold(s_.targets[0].slice, default=u(s_.targets[0].slice))) for s_ in ast.walk(scope) if isinstance(s_, ast.Assign)
+                            and isinstance(s_.targets[0], ast.Subscript) and u(s_.targets[0].value) == copyvar} |
+                           {str(try_fold(c_.args[0], default='?')) for c_ in ast.walk(scope) if isinstance(c_, ast.Call) and call_attr(c_) in ('setdefault', 'update', 'pop')
+                            and u(c_.func.value) == copyvar and c_.args})
+        ok = set(rewritten) <= {'charge', 'mass'}
+    ck.ob(rule, mod.loc(w), ok, 'the printed copy of a node has only its optional columns filled in (items written: {}): residue number, names, type and charge group '
+          'are the node\'s own'.format(rewritten), key=rule + '|columns-untouched')
+
+
 def run(ck):
     idx = ck.index
     mod = idx.mod(ITP)
     mol = idx.mod(MOL)
     w = locate_writer(ck, mod)
+    printed_copy_columns(ck)
     ck.analysed(mod, w)
     mparam = w.args.args[0].arg
     out = w.args.args[1].arg
@@ -160,6 +182,12 @@ def run(ck):
     ck.ob('MPT-all-interactions', mod.loc(inl), len(lw) == 1 and unconditional_in(w, inl.body, lw[0]) and
           not any(isinstance(n, (ast.Continue, ast.Break)) for s in inl.body for n in ast.walk(s)),
           'every interaction yields exactly one line (no skip, no early exit)', key='MPT-all-interactions|one-line-each')
+    # order: the atoms of an interaction are written in the order the interaction lists them (exclusions, cmap, impropers, virtual sites are directional)
+    reorder = [u(n)[:60] for s_ in inl.body for n in ast.walk(s_)
+               if (isinstance(n, ast.Call) and (call_attr(n) in ('reverse', 'sort') or call_name(n) in ('sorted', 'reversed', 'set', 'frozenset', 'min', 'max')))
+               or (isinstance(n, ast.Subscript) and isinstance(n.slice, ast.Slice) and n.slice.step is not None)]
+    ck.ob('ORD-atoms', mod.loc(inl), not reorder, 'the atom columns of a line follow the interaction\'s own atom order: nothing in the line-building loop sorts, reverses or '
+          'de-duplicates ({})'.format(reorder or 'none'), key='ORD-atoms|no-reorder')
     # taint: raw node keys never reach the writer
     ivar2 = u(inl.target)
     raw_uses = 0
